@@ -248,7 +248,7 @@ fn subsets_upto2(n: usize) -> Vec<Vec<usize>> {
 /// against every stream length
 pub fn c19_sweep(max_l: usize) -> Vec<Program> {
     let mut out = vec![];
-    let containers = [Container::Vec, Container::Deque, Container::Array1, Container::Sim];
+    let containers = [Container::Vec, Container::Deque, Container::Array1, Container::Sim, Container::Plain];
     let scan_pre = [Op::Wrap(Stage::Scan)];
     let trust_pre = [Op::Wrap(Stage::ToTrust), Op::NextBack];
     let pre: [&[Op]; 6] = [&[], &[Op::Next], &[Op::NextBack], &[Op::Next, Op::NextBack], &scan_pre, &trust_pre];
@@ -299,6 +299,11 @@ pub fn c19_sweep(max_l: usize) -> Vec<Program> {
                         let mut sinks = vec![Sink::TryTrustedToVec];
                         if ty != Ty::Trk {
                             for c in containers {
+                                // the inherited default of the fallible collectors unwraps
+                                // (documented fallback): only error-free streams go there
+                                if c == Container::Plain && !errs.is_empty() {
+                                    continue;
+                                }
                                 sinks.push(Sink::TryTrusted(c));
                                 sinks.push(Sink::TryPlain(c));
                             }
@@ -376,6 +381,9 @@ pub fn c19_sweep(max_l: usize) -> Vec<Program> {
                             continue;
                         }
                         for c in containers {
+                            if c == Container::Plain && !errs.is_empty() {
+                                continue;
+                            }
                             out.push(Program::Pipe(Pipe {
                                 ty,
                                 data: pattern(ty, m, 0),
@@ -411,7 +419,7 @@ pub fn c19_sweep(max_l: usize) -> Vec<Program> {
 /// range / linspace / full / empty over small integers and floats, every container
 pub fn generators(level: usize) -> Vec<Program> {
     let mut out = vec![];
-    let containers = [Container::Sim, Container::Vec, Container::Deque, Container::Array1];
+    let containers = [Container::Sim, Container::Vec, Container::Deque, Container::Array1, Container::Plain];
     let int_tys = [GenTy::I32, GenTy::I64, GenTy::Usize, GenTy::OptI32];
     let float_tys = [GenTy::F64, GenTy::F32, GenTy::OptF64];
     let span = 3 + level as i64;
